@@ -238,6 +238,7 @@ func truncToUint64(v float64) uint64 { return uint64(v) }
 
 //@ func (*Iter).PeekNext
 //@   props C14 C02
+//@   summary
 //@   ghost q int
 //@   requires iterOK(i)
 //@   requires nopRun(i.tape.Tape, i.off+i.addNext, q)
@@ -515,6 +516,7 @@ func wfExtents(T []uint64) bool {
 //@   ensures atend: implies(old(i.off)+old(i.addNext) >= len(i.tape.Tape), result == TypeNone)
 //@   ensures endpos: implies(i.t == TagEnd, i.off >= len(i.tape.Tape) || i.off > old(i.off)+old(i.addNext))
 //@   ensures nonequeue: implies(result == TypeNone, i.addNext == 0 && !isNumOrString(i.t) && !isContainerTag(i.t) && i.t != TagRoot)
+//@   ensures typnone: implies(result == TypeNone, specTagType(i.t) == TypeNone)
 //@   ensures inv: iterOK(i)
 //@   invariant 0 0 <= i.off && i.off <= 1<<57 && old(i.off)+old(i.addNext) <= i.off
 //@   decreases 0 len(i.tape.Tape) - i.off
@@ -715,10 +717,11 @@ func le64(b []byte, k int) uint64 {
 // Filtered iteration (C12): the callback only ever sees members admitted by the filter
 
 //@ func (*Object).ForEach variant filter
-//@   props C12
+//@   props C12 C02
 //@   requires 0 <= o.off && o.off <= 1<<57 && o.tape.Strings != nil
-//@   invariant 0 iterOK(&tmp) && tmp.tape.Strings != nil
+//@   invariant 0 iterOK(&tmp) && tmp.tape.Strings != nil && 0 <= n && n <= tmp.off
 //@   callreq fn infilter: len(onlyKeys) == 0 || inKeys(onlyKeys, name)
+//@   ensures complete: implies(len(onlyKeys) == 0 && result == nil, specTagType(tmp.t) == TypeNone)
 
 //@ func (*Object).DeleteElems variant filter
 //@   props C12 C14
@@ -1584,4 +1587,13 @@ func ifaceMeasureIter(i *Iter) int {
 //@   invariant 0 iterOK(i) && len(stack) >= 1 && stack[0] == 0
 //@   invariant 0 phase: (i.off == old(i.off) && i.t == TagRoot && i.cur == uint64(old(i.off))+3 && len(stack) == 1 && sameBytes(dst, old(dst))) || (i.off == old(i.off)+1 && i.t == TagObjectStart && i.addNext == 0 && len(stack) == 2 && stack[1] == 3 && sameBytes(dst, old(dst))) || (i.off == old(i.off)+2 && i.t == TagObjectEnd && i.addNext == 0 && len(stack) == 3 && stack[1] == 3 && stack[2] == 2 && appended1(dst, old(dst), '{')) || (i.off == old(i.off)+3 && i.t == TagRoot && i.cur == uint64(old(i.off))-1 && i.addNext == 0 && len(stack) == 2 && stack[1] == 3 && appended2(dst, old(dst), '{', '}'))
 //@   decreases 0 marshalMeasure(i)
+
+// FirstType reports the type of the first LIVE element: deleted zones at the start of the array are skipped (C14).
+//@ func (*Array).FirstType variant lands
+//@   props C14 C02
+//@   ghost q int
+//@   requires 0 <= a.off && a.off <= 1<<56
+//@   requires nopRun(a.tape.Tape, a.off, q)
+//@   ensures lands: implies(q < len(a.tape.Tape), result == TagToType[tagOf(a.tape.Tape[q])])
+//@   ensures end: implies(q == len(a.tape.Tape), result == TypeNone)
 
